@@ -178,13 +178,14 @@ def undoTo (target : Nat) : Nat → Chain → Except String Chain
       let c1 ← undoLast c
       undoTo target f c1
 
-/-- first loop(s) of MoveToBlock: climb from `n` until height ≤ `h`; `none` = "cannot continue" -/
+/-- first loop(s) of MoveToBlock: climb from `n` until height ≤ `h`; `none` = "cannot continue"
+    (`cur.TxCount == 0 && cur.Parent != nil`: the genesis node has no data and needs none) -/
 def climbChecked (c : Chain) (h : Nat) : Nat → Node → Except String (Option Node)
   | 0, _ => throw "panic:fuel"
   | f + 1, n =>
     if n.height > h then do
       let p ← node! c n.parent
-      if p.txCount == 0 then pure none else climbChecked c h f p
+      if p.txCount == 0 && p.id != c.root then pure none else climbChecked c h f p
     else pure (some n)
 
 /-- third loop of MoveToBlock: both at the same height, climb to the common block -/
@@ -262,9 +263,10 @@ def Outcome.name : Outcome → String
   | .ok => "ok" | .dup => "dup" | .later => "later" | .tooDeep => "toodeep"
   | .rejected e => "err:" ++ e.name | .moveFailed => "movefailed" | .panic s => s
 
-/-- fuel for one delivery: every recursive call of parseTill/afterFail/moveTo either connects a block or
-    deletes one, so `3·(#nodes+2)` is enough -/
-def fuelOf (c : Chain) : Nat := 3 * (c.nodes.length + 3)
+/-- fuel for one delivery. Between two failures ParseTillBlock connects at most (tree depth) ≤ #nodes blocks, every
+    failure deletes at least one node and costs three more calls, so `(#nodes+3)²` is enough
+    (proved: Proofs/C06Reorg `moveTo_spec` never returns `panic:fuel` from this amount). -/
+def fuelOf (c : Chain) : Nat := (c.nodes.length + 3) * (c.nodes.length + 3)
 
 /-- `ch.CommitBlock(bl, cur)` -/
 def commitBlock (c : Chain) (b : Block) (height : Nat) : Chain × Outcome :=
